@@ -275,6 +275,9 @@ bool exec_str_a(Ctx &c, const Op &op) {
         long long iv = int_value(op.a); double dv = dbl_value(op.a);
         int base = (op.c % 4 == 0) ? 10 : (op.c % 4 == 1) ? 16 : (op.c % 4 == 2) ? 2 : 36;
         bool upper = (op.c >> 2) & 1;
+        // 'f' gives the longest text (22 characters for 1e14); the formatter's block holds 64, so values beyond 1e15 stay with 'g' / 'e'
+        char ffmt = "gef"[(op.c >> 3) % 3];
+        if (ffmt == 'f' && !(dv != dv) && (dv > 1e15 || dv < -1e15) && dv - dv == 0) ffmt = 'e';
         void *mem = obj_alloc(sizeof(ST::string));
         ExcKind ex = run_sut(c, op, [&] {
             typedef ST::string S;
@@ -287,8 +290,8 @@ bool exec_str_a(Ctx &c, const Op &op) {
             case 5: new (mem) S(S::from_uint((unsigned int)iv, base, upper)); break;
             case 6: new (mem) S(S::from_uint((unsigned long)iv, base, upper)); break;
             case 7: new (mem) S(S::from_uint((unsigned long long)iv, base, upper)); break;
-            case 8: new (mem) S(S::from_float((float)dv)); break;
-            case 9: new (mem) S(S::from_double(dv, (op.c & 1) ? 'e' : 'g')); break;
+            case 8: new (mem) S(S::from_float((float)dv, ffmt)); break;
+            case 9: new (mem) S(S::from_double(dv, ffmt)); break;
             default: new (mem) S(S::from_bool(iv & 1)); break;
             }
         });
